@@ -125,6 +125,12 @@ func poolNew(fr *frame, pool *value) value {
 	return call(fr.i, fr, token.NoPos, newf, nil)
 }
 
+type putHook struct {
+	k, count    int
+	f           value
+	busy, fired bool
+}
+
 type poolModel struct {
 	bags   map[*value][]value
 	nondet bool
@@ -480,7 +486,32 @@ func init() {
 			o.vc.join(&s.cur.vc)
 			s.cur.vc[s.cur.id]++
 		}
+		// adversarial environment: right after the k-th Put another "goroutine" runs a whole operation
+		// (its own Gets take the object that was just put back). Anything the putter still does with the
+		// object afterwards is then exposed.
+		if h, _ := p.extra["putHook"].(*putHook); h != nil && !h.busy && !h.fired {
+			if h.count == h.k {
+				h.busy, h.fired = true, true
+				p.extra["interfered"] = true
+				saved := p.pool.nondet
+				p.pool.nondet = false
+				call(fr.i, fr, token.NoPos, h.f, nil)
+				p.pool.nondet = saved
+				h.busy = false
+			}
+			h.count++
+		}
 		return nil
+	}
+	I[vrtPath+"PoolInterfere"] = func(fr *frame, args []value) value {
+		fr.i.p.extra["putHook"] = &putHook{k: int(fr.conc(args[0])), f: args[1]}
+		return nil
+	}
+	I[vrtPath+"PoolPuts"] = func(fr *frame, args []value) value {
+		if h, _ := fr.i.p.extra["putHook"].(*putHook); h != nil {
+			return h.count
+		}
+		return 0
 	}
 
 	// ---- sync/atomic typed values
